@@ -36,7 +36,7 @@ def check(ctx):
             if "i" in kw and "o" not in kw:
                 wl = (s.target[1], s.target[2], kw["i"], fl)
     if rl is None or wl is None:
-        raise AnalysisError("C28", comp.site, "PipelineBuilder: inter-stage read/write method lists not found")
+        raise AnalysisError("C28", comp.site, "PipelineBuilder: inter-stage read/write method lists not found", missing="PipelineBuilder: inter-stage read/write method lists not found")
     reads, ridx, rlay, rfl = rl
     writes, widx, wlay, wfl = wl
     b = rfl[0][1][0] if rfl else None
